@@ -24,6 +24,10 @@ def build_expr(case, env):
     core = A.J()['core']
     blocks = A.J()['blocks']
     ops = [env[n] for n in names]
+    if ctx == 'bare':
+        return ops[0]
+    if ctx == 'blockdiag1':
+        return blocks.BlockDiagonalOperator({'only': core.CompositionOperator(ops)})
     if ctx == 'comp':
         return core.CompositionOperator(ops)
     if ctx == 'matmul':  # left-associated @
@@ -106,9 +110,17 @@ class ReduceBase(PropertyCheck):
         for n in [n for n in CONTEXT_OPS if n in t]:
             by_out.setdefault(t[n][1], []).append(n)
             by_in.setdefault(t[n][0], []).append(n)
+        # 0. every operand of the alphabet alone: reduce() of the bare object and of a one-operand composition / sum / block
+        for n in sorted(t):
+            for ctx in ('bare', 'comp', 'sum1', 'blockdiag1'):
+                add([n], ctx, 'operand')
         # 1. every documented pattern alone, in every construction context
         patterns = {k: v for k, v in G.PATTERNS.items() if all(n in t for n in v)}
         self.stats['patterns_unbuildable'] = sorted(set(G.PATTERNS) - set(patterns))
+        # harness self-check: a hand-written pattern must be a chain-compatible expression
+        bad = sorted(k for k, v in patterns.items() if any(t[a][0] != t[b][1] for a, b in zip(v[:-1], v[1:])))
+        self.stats['patterns_illtyped'] = bad
+        patterns = {k: v for k, v in patterns.items() if k not in bad}
         for pname, pat in patterns.items():
             for ctx in ('comp', 'matmul', 'rmatmul', 'sum', 'blockdiag', 'blockrow-dict', 'T', 'sum1'):
                 if len(pat) >= 2 or ctx == 'comp':
@@ -154,6 +166,8 @@ class ReduceBase(PropertyCheck):
         bad = self.stats.get('unbuildable_operands') or {}
         if bad:
             raise RuntimeError(f'operands of the alphabet cannot be constructed on this tree: {bad}')
+        if self.stats.get('patterns_illtyped'):
+            raise RuntimeError(f'hand-written patterns are not chain-compatible: {self.stats["patterns_illtyped"]}')
         return {}
 
     def distribution(self, cases):
